@@ -120,7 +120,7 @@ def run(ctx):
             ctx.dist("harmless_" + cls + "_" + kind)
             continue
         after = r[nb + 1]["arch"]["files"].get(f)
-        if kind == "bitflip" and cls != "block" and after is not None and after.get("t") in ("hunk", "json"):
+        if kind in ("bitflip", "hunkaddr", "tailcount") and cls != "block" and after is not None and after.get("t") in ("hunk", "json"):
             ctx.dist("bitflip_still_decodable_" + cls)      # no checksum on index/metadata files: outside the property
             continue
         v, vq = probe[idx["validate"]], probe[idx["validate_quick"]]
